@@ -1,6 +1,8 @@
 package eng
 
 import (
+	"crawshaw.io/sqlite"
+	"crawshaw.io/sqlite/sqlitex"
 	"runtime/debug"
 	"context"
 	"crypto/ecdsa"
@@ -407,13 +409,20 @@ func (w *seqWorld) exec(c *seqCmd) {
 				}
 			}
 			go func() {
+				defer close(s.done)
+				defer func() {
+					// the real server's handler goroutine would die here: the submitter gets no outcome at all
+					if p := recover(); p != nil {
+						s.err = fmt.Errorf("wait function panicked: %v", p)
+						s.panicked = fmt.Sprint(p)
+					}
+				}()
 				le, err := x.f(context.Background())
 				if err == nil && le != nil {
 					s.idx, s.ts = le.LeafIndex, le.Timestamp
 					s.le = le
 				}
 				s.err = err
-				close(s.done)
 			}()
 		}
 		w.after(in)
@@ -510,6 +519,15 @@ func (w *seqWorld) exec(c *seqCmd) {
 		os.Remove(in.cache + "-wal")
 		w.orc.cacheLost = true
 		w.ev("%d cachelose", in.id)
+	case "legacyize":
+		// the cache file of a log that ran v0.8.0 or earlier: some rows live only in the 128-bit "cache" table
+		if in.alive {
+			return
+		}
+		if n, err := legacyizeCache(in.cache, c.V); err == nil {
+			w.ev("%d legacyize %d", in.id, n)
+			w.st.Count("op:legacyize")
+		}
 	case "tamper":
 		w.tamper(c)
 	}
@@ -717,6 +735,9 @@ func (w *seqWorld) report(s *seqSub) {
 		w.checkLeafEntry(s)
 		return
 	}
+	if s.panicked != "" {
+		w.orc.fail("C17", "waiter-panicked", "the wait function of entry %d on instance %d panicked instead of returning an outcome: %s", s.entry.ID, s.inst.id, s.panicked)
+	}
 	cls := "poolerr"
 	switch {
 	case errors.Is(s.err, ctlog.VerifErrEvicted):
@@ -751,3 +772,27 @@ func (w *seqWorld) finish() {
 }
 
 func fpOf(b []byte) [32]byte { return sha256.Sum256(b) }
+
+// legacyizeCache moves the rows of cache256 whose leaf index has the parity of v (all rows when v < 0) into the
+// pre-v0.8.1 table "cache", keyed by the first 128 bits of the key. No row is lost: the cache answers exactly as before.
+func legacyizeCache(path string, v int64) (int, error) {
+	conn, err := sqlite.OpenConn(path, 0)
+	if err != nil {
+		return 0, err
+	}
+	defer conn.Close()
+	where := fmt.Sprintf("(leaf_index %% 2) = %d", v%2)
+	if v < 0 {
+		where = "1"
+	}
+	err = sqlitex.ExecScript(conn, `
+		CREATE TABLE IF NOT EXISTS cache (key BLOB PRIMARY KEY, timestamp INTEGER, leaf_index INTEGER) WITHOUT ROWID;
+		INSERT OR REPLACE INTO cache SELECT substr(key, 1, 16), timestamp, leaf_index FROM cache256 WHERE `+where+`;
+		DELETE FROM cache256 WHERE `+where+`;`)
+	if err != nil {
+		return 0, err
+	}
+	n := 0
+	err = sqlitex.ExecTransient(conn, "SELECT count(*) FROM cache", func(stmt *sqlite.Stmt) error { n = int(stmt.ColumnInt64(0)); return nil })
+	return n, err
+}
